@@ -12,9 +12,13 @@ META = {
         "(2) CreateOptions.compaction_filter_factory has no other source: it is written only by Default/from_kvs (None) "
         "and with_compaction_filter_factory (Some(parameter)), which only those two sites call; the builder stores the "
         "user's assigner unchanged; apply_to_base_config passes the field to the tree; (3) the compaction worker compacts a "
-        "keyspace's tree with that same keyspace's strategy."),
+        "keyspace's tree with that same keyspace's strategy; (4) 'staying filtered once observed': a journal replay apply "
+        "site must be guarded by a test of the record's seqno against the tree's persisted seqno (or filter the record "
+        "again) — otherwise a record whose persisted copy the filter has removed/replaced is resurrected on reopen. "
+        "Both replay sites of the pinned tree lack the guard: two demonstrated KNOWN FINDINGS (demos/c18_refilter_demo.rs)."),
     "not_decided": [
-        "verdict semantics (keep / remove / replace) and 'stays filtered until rewritten': entirely inside lsm-tree's compaction stream",
+        "verdict semantics (keep / remove / replace) inside lsm-tree's compaction stream",
+        "'stays filtered' between compactions of overlapping runs inside lsm-tree (only the fjall-side resurrection through journal replay is decided)",
     ],
     "assumptions": ["lsm_tree::Config::with_compaction_filter_factory installs the factory for that tree only"],
 }
@@ -210,3 +214,37 @@ def run(ctx):
                 ks = og.of_operand(t["args"][0])
                 ok = any(x.k == "downcast" and x.a[1] == "Compact" for x in A.walk(ks))
         ctx.ob("R-C18.3", wt, "compacts-the-requested-keyspace", ok, "run_compaction(keyspace of the Compact message)" if ok else "worker compacts a different keyspace than the message names")
+
+    # ---- R-C18.3 "staying filtered once observed": journal replay must not resurrect a record the tree has already
+    # persisted — the persisted copy may since have been removed / replaced by the compaction filter, the journal copy has not.
+    # Necessary condition: every replay apply site is guarded by a test of the record's seqno against the tree's
+    # get_highest_persisted_seqno() (or the record is run through the filter again).
+    n = 0
+    for fid in ("db::Database::recover", "recovery::recover_sealed_memtables"):
+        fn = ctx.fn(fid, "R-C18.3")
+        if not fn:
+            continue
+        og = ctx.og(fn)
+        applies = [b for b, t in fn.calls() if A.is_call_to(t, R.APPLY_ANY) and A.cname(t).rsplit("::", 1)[-1] in ("insert", "remove", "remove_weak") and A.in_cycle(fn, b)]
+        if not applies:
+            ctx.ob("R-C18.3", fn, "replay-apply-sites-present", False, "%s no longer applies journal records" % fid, kind="anchor")
+            continue
+        n += len(applies)
+        unguarded = []
+        for ab in applies:
+            guarded = False
+            for sb, blk in enumerate(fn.blocks):
+                if blk["t"]["k"] != "switch" or blk["cleanup"] or not A.dominates(fn, sb, ab) or not A.in_cycle(fn, sb):
+                    continue
+                cond = og.of_operand(blk["t"]["d"])
+                if any(x.k == "call" and x.a[0].endswith("::get_highest_persisted_seqno") for x in A.walk(cond)):
+                    guarded = True
+            refiltered = any("compaction::filter" in A.cname(t) or "CompactionFilter" in A.cname(t) for b, t in fn.calls() if A.dominates(fn, b, ab))
+            if not (guarded or refiltered):
+                unguarded.append(ab)
+        ok = not unguarded
+        ctx.ob("R-C18.3", fn, "replay-skips-records-already-persisted", ok,
+               "every replayed record is applied only if it is newer than what the tree has persisted (or is filtered again)" if ok
+               else "journal replay re-applies records the tree has already persisted (%d apply site(s) with no persisted-seqno guard): an item a compaction filter removed or replaced, and that was observed in filtered form, is back in its original form after a reopen while its record is still in a journal" % len(unguarded),
+               fn.loc(unguarded[0]) if unguarded else "")
+    ctx.floor("R-C18.3", "journal replay apply sites", n, 6)
